@@ -25,7 +25,10 @@ KindOK(e) ==
 T1(e) == (Ret(e.r) /\ KindOK(e)) \/ IsVE(e.r)
 (* T2: a returned birth date is a real date and agrees with the digits of the number *)
 T2(e) == (e.g = "get_birth_date" /\ Ret(e.r) /\ e.r.t = "date")
-            => (RealDate(e.r.date[1], e.r.date[2], e.r.date[3]) /\ (HasLayout(e.m) => Agrees(e.m, e.v, e.r.date)))
+            => (/\ RealDate(e.r.date[1], e.r.date[2], e.r.date[3])
+                /\ (HasLayout(e.m) => Agrees(e.m, e.v, e.r.date))
+                /\ (e.m = "it.codicefiscale" => CfAgrees(e.v, e.r.date))
+                /\ (e.m = "se.personnummer" => SeAgrees(e.v, e.r.date)))
 (* T3: ... and with the separately returned year and month *)
 T3(e) == (e.g \in {"get_birth_year", "get_birth_month"} /\ Ret(e.r) /\ e.r.t = "int" /\ "get_birth_date" \in DOMAIN Seen(e)
           /\ Seen(e)["get_birth_date"].t = "date")
